@@ -1,7 +1,7 @@
 """Shared plumbing of the checks: MIR regeneration from /repo, program loading, evidence, known findings."""
 import hashlib, json, os, subprocess, sys, time
 from .interp import Program, Agg, Cell, SInt, Unsupported
-from . import models_std  # noqa: F401  (registers the std models)
+from . import models_std, models_coll  # noqa: F401  (register the std / collection models)
 
 REPO = os.environ.get('VERIF_REPO', '/repo')
 VERIF = os.path.dirname(os.path.dirname(os.path.abspath(__file__)))
